@@ -200,12 +200,18 @@ func sortConnFields(conns []singleConnFields, sortBySrc bool) []singleConnFields
 			if conns[i].Src != conns[j].Src {
 				return conns[i].Src < conns[j].Src
 			}
-			return conns[i].Dst < conns[j].Dst
+			if conns[i].Dst != conns[j].Dst {
+				return conns[i].Dst < conns[j].Dst
+			}
+			return conns[i].ConnString < conns[j].ConnString // total order: lines with equal peers never swap between runs
 		} // else sort by dst
 		if conns[i].Dst != conns[j].Dst {
 			return conns[i].Dst < conns[j].Dst
 		}
-		return conns[i].Src < conns[j].Src
+		if conns[i].Src != conns[j].Src {
+			return conns[i].Src < conns[j].Src
+		}
+		return conns[i].ConnString < conns[j].ConnString
 	})
 	return conns
 }
